@@ -178,7 +178,7 @@ func runC20pg(h History, pg *progress) *Viol {
 
 func runC20(h History) *Viol { return runC20pg(h, nil) }
 
-var c20mins = []int64{0, 1, 2, 5, 100, 65530, -3, -1}
+var c20mins = []int64{0, 1, 2, 5, 100, 65530, -3, -1, 0, 1, 1<<31 - 2, 1<<32 + 5, 1 << 40, -(1 << 33)}
 
 func genC20(seed, index uint64, maxSize int) History {
 	r := &Rng{s: mix(seed^0xc20, index)}
@@ -268,6 +268,10 @@ func genC20(seed, index uint64, maxSize int) History {
 			default: // identifiers rather than offsets
 				lo = g.min + int64(r.Intn(int(g.size)))
 				hi = g.min + int64(r.Intn(int(g.size)))
+			}
+			if r.Chance(3) {
+				// far outside anything 32 bits can hold
+				lo += (int64(r.Intn(5)) - 2) << 32
 			}
 			h.Steps = append(h.Steps, Step{Inst: k, Op: "Allocate_inRange", A: lo, B: hi})
 		default:
